@@ -499,4 +499,6 @@ def scenarios(tier):
                 out.append(Scenario("step/" + nm, one_step, params=dict(shape=shape, op=op, tok=tok, tok2=tok2), shadows=SHADOWS, entry=e, max_paths=600, witness_cap=8, canary=None if ((op == "repay_coll" and shape[tok2][0] != "C") or (op == "borrow" and not _borrowable(shape, tok))) else "CANARY balances ignore the index"))
                 if tier != "quick" or sn in ("A", "B"):
                     out.append(Scenario("split/" + nm, split_merge, params=dict(shape=shape, op=op, tok=tok, tok2=tok2), shadows=SHADOWS, entry=e, max_paths=600, witness_cap=8))
+    for op, tok, tok2 in (("withdraw", "WETH", None), ("repay", "DAI", None), ("repay_coll", "DAI", "WETH")):
+        out.append(Scenario(f"step/A/{op}/{tok}{'/' + tok2 if tok2 else ''}/another_aave_market_in_the_process", one_step, params=dict(shape=SHAPES_QUICK["A"], op=op, tok=tok, tok2=tok2, neighbour_market=True), shadows=SHADOWS, entry=e, max_paths=600, witness_cap=8))
     return out
